@@ -166,8 +166,8 @@ PROPS = {
         assumptions=["limit L >= 1: 0 means 'default limit' and a negative value 'unlimited' (documented sentinels of baseFilter.decodeLimit)", "the Filter interface documents DecodeLength as 'at least maxLen bytes': the filter-level assertion is prefix-of-full with length >= min(n, len(full))"],
         harnesses=[
             dict(name="VerifLimitRunLength", bounds=dict(quick=dict(N=3), thorough=dict(N=3)), opts=dict(unwind=700)),
-            dict(name="VerifLimitASCIIHex", bounds=dict(quick=dict(N=4), thorough=dict(N=6)), opts=dict(unwind=100)),
-            dict(name="VerifLimitPredictorRows", bounds=dict(quick=dict(N=6, COLS=2), thorough=dict(N=9, COLS=3)), opts=dict(unwind=100)),
+            dict(name="VerifLimitASCIIHex", bounds=dict(quick=dict(N=4), thorough=dict(N=5)), opts=dict(unwind=100)),
+            dict(name="VerifLimitPredictorRows", bounds=dict(quick=dict(N=6, COLS=2), thorough=dict(N=8, COLS=2)), opts=dict(unwind=100)),
         ],
     ),
     "C17": dict(
@@ -319,7 +319,7 @@ PROPS = {
         pkg=MO,
         explanation="Node.Add / HandleLeaf / insertIntoLeaf / updateNameTreeLimits / Node.Remove / removeFromLeaf / removeFromKids / Node.Value executed symbolically on histories of I inserts then R removals with symbolic 1-byte keys on an empty tree (maxEntries = 3: the 4th distinct key splits the leaf); the solver enumerates every feasible ordering/equality pattern of the keys; after each operation: keys strictly ascending, node limits = min/max below, lookups = reference association list",
         outside="histories longer than the bounds, keys longer than one byte (ordering is lexicographic: one byte exercises every comparison outcome), trees read from documents, NameMap renaming of duplicate keys, writing and re-reading the tree",
-        harnesses=[dict(name="VerifNameTreeHistory", bounds=dict(quick=dict(I=5, R=1), thorough=dict(I=5, R=2)), opts=dict(unwind=200))],
+        harnesses=[dict(name="VerifNameTreeHistory", bounds=dict(quick=dict(I=5, R=1), thorough=dict(I=5, R=1)), opts=dict(unwind=200))],
     ),
     "C42": dict(
         pkg=SM,
